@@ -122,11 +122,12 @@ def run(ix, R):
             why.append('guard is %s' % (g.text() if g else None))
         else:
             ca = atom_of(fl, ga.args[0])
-            if ca is None or ca.head != 'cmp' or ca.extra[0] not in ('Gt', 'GtE') or \
-                    ca.args[1].const() != 1:
+            # canonical comparison spelling is `1 < total`
+            if ca is None or ca.head != 'cmp' or ca.extra[0] not in ('Lt', 'LtE') or \
+                    ca.args[0].const() != 1:
                 why.append('guard compares %s' % fmt(fl, ga.args[0]))
             else:
-                total = ca.args[0]
+                total = ca.args[1]
                 okrem = fl.tab.equal(rem, 1 - total + spec(fl, 'zeros(shape=N)', pe)) or \
                     fl.tab.equal(rem, 1 - total)
                 if not okrem:
